@@ -662,8 +662,13 @@ def select__index_of(self: XPathFunction, context: ta.ContextType = None) -> Ite
     else:
         collation = self.get_argument(context, 2, required=True, cls=str)
 
+    if isinstance(value, UntypedAtomic):
+        value = value.value  # untyped values are compared as strings
+
     with CollationManager(collation, self) as manager:
         for pos, result in enumerate(self[0].atomization(context), start=1):
+            if isinstance(result, UntypedAtomic):
+                result = result.value
             try:
                 if is_comparable(result, value) and manager.eq(result, value):
                     yield pos
